@@ -19,7 +19,9 @@ order `ks` and the order `gs` of the suffix groups of a header are universally q
 clause of the property text                              theorem(s)
 -------------------------------------------------------  -----------------------------------------------------------
 for each label exactly that host's lines, in order       `lines_preserved` (all inputs), `match_formatted`,
-                                                         `match_only_labelled`, `input_is_its_lines`, `input_text_table`
+                                                         `match_only_labelled`, `input_is_its_lines`, `input_text_table`,
+                                                         `file_arguments_lines` (input as several files, any of them
+                                                         unterminated)
 ... to the report                                        `normal_spec`
 ... or, with -d, to one file per host                    `per_file_spec` (paths `DIR/LABEL` pairwise different, one per
                                                          label, holding its lines), `file_names_are_labels`, `plan_d`,
@@ -360,6 +362,27 @@ example : hostsOf (compressV (some 16384) (some 10240) true (strSort ["a,b".toLi
     ["a,b".toList, "n[1]".toList] ∧
     renderHeader (compressV (some 16384) (some 10240) true (strSort ["a,b".toList, "n[1]".toList])) =
       "a,b,n[1]".toList := by decide
+
+/-! ### input given as file arguments -/
+
+/-- FILE ARGUMENTS (`dshbak out1 out2 ...`): with D21 repaired, the table dshbak builds from several files — any
+of which may end without a newline, as pdsh writes the unterminated tail of remote output — is the table of all
+their lines in order, each treated as a full line: nothing is dropped and no line is glued to the next file's
+first line.  (A repair that only looks at the end of ALL input loses the last line of every earlier file:
+pinned on the real script by checks/c19.py, `files:*`.) -/
+theorem file_arguments_lines (fsx : List (List Str × Str))
+    (h : ∀ f ∈ fsx, (∀ l ∈ f.1, '\n' ∉ l) ∧ '\n' ∉ f.2) :
+    processLines true (readFiles (fsx.map fileText)) =
+      processLines true ((fsx.flatMap fileLines).map (·, true)) := by
+  rw [processLines_flags, readFiles_lines fsx h]
+
+/-- two files, the first ending without a newline: both of its lines are there -/
+example : processLines true (readFiles ["a: x\na: y".toList, "a: z\nb: w\n".toList]) =
+    [("a".toList, ["x".toList, "y".toList, "z".toList]), ("b".toList, ["w".toList])] := by decide
+
+/-- as found (D21), the unterminated last line of EVERY file is dropped -/
+example : processLines false (readFiles ["a: x\na: y".toList, "a: z\nb: w".toList]) =
+    [("a".toList, ["x".toList, "z".toList])] := by decide
 
 /-! ### options and `-d DIR` -/
 
